@@ -351,6 +351,9 @@ pub struct Outcome {
 
 pub enum Policy {
     Random { rng: Rng, stick: u64 },
+    /// Random for `after` steps; then everybody but `who` is frozen until `who` has finished the
+    /// API call it is in (C09: no operation waits for another thread); then random again.
+    Solo { rng: Rng, stick: u64, after: usize, who: usize, steps: usize, solo_steps: usize, done: bool },
     Replay { sched: Vec<(usize, bool)>, pos: usize },
     /// Hand-written scenario: `(t, pat)` = keep granting thread `t` until it is parked right
     /// before a point whose label (site, or `begin <op>`) contains `pat`, or until it has finished.
@@ -402,6 +405,51 @@ impl Policy {
                     return Some((t, false));
                 }
                 ids.first().map(|t| (*t, false))
+            }
+            Policy::Solo { rng, stick, after, who, steps, solo_steps, done } => {
+                *steps += 1;
+                if *steps > *after && !*done {
+                    if *solo_steps == 0 {
+                        // choose the moment and the thread: preferably while some writer is parked
+                        // in the middle of its walk (inside a node), and preferably a thread that
+                        // has not used the crate yet (it will have to find a node)
+                        let mid_walk = ids.iter().any(|t| {
+                            let s = &parked[t].site;
+                            is_writer_api(apis.get(t).map(|x| x.as_str()).unwrap_or(""))
+                                && (s.contains("Slots::help#") || s.contains("Debt::pay#0") || s.contains("NodeReservation"))
+                        });
+                        if mid_walk || *steps > *after + 200 {
+                            let fresh: Vec<usize> = ids.iter().copied().filter(|t| parked[t].site == "begin" && !apis.contains_key(t)).collect();
+                            *who = if !fresh.is_empty() && rng.chance(2, 3) { fresh[rng.range(0, fresh.len())] } else { ids[rng.range(0, ids.len())] };
+                        } else {
+                            *steps += 0;
+                            let mut inner = Policy::Random { rng: rng.clone(), stick: *stick };
+                            let r = inner.next(parked, apis, last);
+                            if let Policy::Random { rng: r2, .. } = inner {
+                                *rng = r2;
+                            }
+                            return r;
+                        }
+                    }
+                    match parked.get(who) {
+                        Some(p) if p.site != "begin" && p.site != "exit" => {
+                            *solo_steps += 1;
+                            return Some((*who, false));
+                        }
+                        // it has not started an operation yet: let it start one, then freeze the rest
+                        Some(p) if *solo_steps == 0 && p.site == "begin" => {
+                            *solo_steps += 1;
+                            return Some((*who, false));
+                        }
+                        _ => *done = true,
+                    }
+                }
+                let mut inner = Policy::Random { rng: rng.clone(), stick: *stick };
+                let r = inner.next(parked, apis, last);
+                if let Policy::Random { rng: r2, .. } = inner {
+                    *rng = r2;
+                }
+                r
             }
             Policy::Random { rng, stick } => {
                 let t = if let (Some(l), true) = (last, rng.chance(*stick, 100)) {
@@ -1061,6 +1109,21 @@ where
         }
     }
     varc::SCHED_POINTS.store(true, SeqCst);
+    if let Policy::Solo { solo_steps, who, done, .. } = &policy {
+        let nodes = names(|n| n.nodes.len());
+        let bound = 60 + 40 * (nodes + 1);
+        let mut st = lock(&sh.stats);
+        let e = st.entry("max_solo_steps".into()).or_insert(0);
+        *e = (*e).max(*solo_steps as u64);
+        *st.entry("solo_runs".into()).or_insert(0) += 1;
+        drop(st);
+        if *solo_steps > bound || (hung && !*done) {
+            violation(format!(
+                "blocked: t{} running alone (all other threads frozen) did not finish its operation within {} steps ({} nodes)",
+                who, solo_steps, nodes
+            ));
+        }
+    }
     let violations = lock(&varc::VIOLATIONS).clone();
     let stats = lock(&sh.stats).clone();
     Outcome { trace, taken, violations, stats, hung }
